@@ -8,7 +8,8 @@ Cases:
 
 For compressed frames (flag 0x01 with a negotiated algorithm) the decompressor is a parameter of the model: the
 decompressed body is taken from the implementation's line (`z=<hex>`), a decompression failure is echoed.
-A custom type string with non-ASCII characters is `unmodelled`: the implementation's line is echoed. -/
+The optional last word `u=…` of a frame case is the class table of the non-ASCII scalars of the frame (a parameter
+of the custom type string parser model). -/
 namespace ScyllaVerif.Drive.C08
 open ScyllaVerif.Util ScyllaVerif.C08
 
@@ -160,16 +161,24 @@ def parseOptInt (s : String) : Option (Option Int) :=
 
 def hasSub (s sub : String) : Bool := (s.splitOn sub).length > 1
 
-/-- The line printed where the model does not cover the input (custom type string with non-ASCII characters):
-the implementation's line is echoed, except that a crash-class outcome is never accepted as agreement. -/
-def echoUnmodelled (impl : String) : String :=
-  let t := impl.trimAscii.toString
-  if t == "PANIC" ∨ t == "HANG" ∨ t == "CRASH" ∨ t == "NOT-RUN" ∨ t == "" then "REJECT " ++ (if t == "" then "empty" else t.toLower)
-  else impl
+/-- `u=<utf8 hex>:<A|W>,…`: classes of the non-ASCII scalars occurring in the frame (all others: `other`). -/
+def parseUni (w : String) : Option (List (Bytes × UCls)) :=
+  if w == "-" then some []
+  else (w.splitOn ",").mapM (fun e =>
+    match e.splitOn ":" with
+    | [h, c] =>
+      match parseHex h with
+      | some b => if c == "A" then some (b, UCls.alnum) else if c == "W" then some (b, UCls.white) else none
+      | none => none
+    | _ => none)
 
 def runFrame (w : List String) (impl : String) : String :=
-  match w with
-  | [rl, lwt, tab, mid, cm, comp, _x, hex] =>
+  let (w, uniW) := match w with
+    | [a, b, c, d, e, f, g, h, u] => ([a, b, c, d, e, f, g, h], u)
+    | _ => (w, "-")
+  match w, parseUni uniW with
+  | _, none => "bad-case"
+  | [rl, lwt, tab, mid, cm, comp, _x, hex], some uni =>
     match parseOptInt rl, parseOptInt lwt, parseHex hex with
     | some rl, some lwt, some bs =>
       let f : Features := ⟨rl, lwt.map Int.toNat, tab == "1", mid == "1"⟩
@@ -196,19 +205,18 @@ def runFrame (w : List String) (impl : String) : String :=
         match body with
         | .error e => hdrStr h ++ " " ++ e
         | .ok (body, ztok) =>
-          let (o, _) := decodeBody f cached h body
+          let (o, _) := decodeBody f cached h body uni
           match o with
           | .err k =>
-            if hasSub k "unmodelled" then echoUnmodelled impl
-            else match parseExt h.flags { buf := body } with
+            match parseExt h.flags { buf := body, uni := uni } with
               | (.ok ext, _) => hdrStr h ++ ztok ++ " " ++ extStr ext ++ " err " ++ k
               | (_, _) => hdrStr h ++ ztok ++ " err " ++ k
           | .panic k => "MODEL-PANIC " ++ k
           | .ok d =>
             let line := hdrStr h ++ ztok ++ " " ++ extStr d.ext ++ " " ++ respStr f d.resp d.rowsStage
-            if hasSub line "unmodelled" then echoUnmodelled impl else line
+            line
     | _, _, _ => "bad-case"
-  | _ => "bad-case"
+  | _, _ => "bad-case"
 
 def primOut {α : Type} (show_ : α → String) (r : Outcome α × St) : String :=
   match r with
